@@ -262,6 +262,15 @@ def completeValue (ty : Ty) (nodes : List Nat) (path : Path) (o : Out) : Option 
 def execute (root : FldList) : Option (J × List Err) :=
   (executeFields [] root).map fun (kvs, es) => (J.obj kvs, es)
 
+/-- `execute(...)` as a whole: the ROOT selection set is collected first. When that fails (an invalid
+    `@skip` / `@include` condition at run time: `collect_fields` raises, re-raised as `ResolverError` with the
+    directive's nodes) the answer is `GraphQLResult(data=None, errors=[err])`: `data` is null, ONE error, and the
+    error has NO path (it is never passed through `add_error`). -/
+def executeRequest (rootCollect : Option (String × List (Option Nat))) (root : FldList) : Option (J × List Err) :=
+  match rootCollect with
+  | some (msg, nodes) => some (J.null, [Err.resolver msg nodes none none])
+  | none => execute root
+
 def Err.path? : Err → Option Path
   | .located _ _ p => p
   | .resolver _ _ p _ => p
